@@ -56,7 +56,7 @@ def _tie_mode(rng, shape):
 
 SHAPES = ['dense', 'dense', 'dense', 'lec_gt_students', 'one_lecturer',
           'zero_caps', 'lowerq', 'all_tied', 'no_ties', 'long_lists',
-          'tight_lecturer', 'big_targets']
+          'tight_lecturer', 'big_targets', 'wide']
 
 
 def make_spec(rng, na=None, max_s=4, max_p=4, max_l=4, shape=None,
@@ -73,10 +73,16 @@ def make_spec(rng, na=None, max_s=4, max_p=4, max_l=4, shape=None,
     if shape == 'lec_gt_students':
         ns = rng.randint(min_s, max(min_s, min(2, max_s)))
         np_ = rng.randint(min(max_p, ns + 1), max_p)
+    if shape == 'wide':
+        # two-digit project / lecturer ids (10, 11, ...), few students, short lists
+        ns = rng.randint(min_s, max(min_s, min(4, max_s)))
+        np_ = rng.randint(10, 13)
     if na == 2:
         nl = np_
     else:
         nl = rng.randint(1, max_l)
+        if shape == 'wide':
+            nl = rng.choice([2, 3, 10, 11])
         if shape == 'one_lecturer':
             nl = 1
         if shape == 'lec_gt_students':
@@ -86,6 +92,15 @@ def make_spec(rng, na=None, max_s=4, max_p=4, max_l=4, shape=None,
     for s in range(ns):
         if shape == 'long_lists':
             k = np_
+        elif shape == 'wide':
+            k = rng.randint(1, 3)
+            hi = [p for p in range(9, np_ + 1)]
+            projs = rng.sample(hi, min(k, len(hi)))
+            if rng.random() < 0.4:
+                projs[rng.randrange(len(projs))] = rng.randint(1, 8)
+            projs = list(dict.fromkeys(projs))
+            st.append(random_groups(rng, projs, _tie_mode(rng, shape)))
+            continue
         else:
             k = rng.randint(1, np_)
             if allow_empty_lists and rng.random() < 0.06:
